@@ -986,3 +986,50 @@ theorem sampler_process_tie (s : Sampler) (ts : Nat) (pl : Bytes) (hb : s.bucket
     · simp [hfull]
 
 end BS.Gen
+
+namespace BS.Gen
+open BS.Impl
+
+/-! ### `ByteSeries::push_line` (the order of its checks and effects) -/
+
+/-- carrying out what the translated `push_line` returns: an error leaves everything as it was; else the
+new range, then `push_data` on the series' own files, then every cache level's `process` -/
+def runPushLine (dir : Dir) (s : Sess) (r : R ((SeriesView × List CatchUp) × Unit)) : Dir × R Sess :=
+  match r with
+  | .error (.err c) => (dir, .error (.err (c ++ "/" ++ c)))
+  | .error .panic => (dir, .error .panic)
+  | .ok ((v, acts), _) =>
+    match acts with
+    | [CatchUp.push t l, CatchUp.cache t2 l2] =>
+      match pushData dir.main s.d t l with
+      | .error f => (dir, .error (wrapErr "Pushing" f))
+      | .ok (main', d') =>
+        match pushLine.go t2 l2 { dir with main := main' } [] s.caches with
+        | (dir', .error f) => (dir', .error f)
+        | (dir', .ok caches') => (dir', .ok { s with d := d', range := v.range, caches := caches' })
+    | _ => (dir, .error .panic)
+
+/-- **`push_line` as translated from the current source is the model's `pushLine`**: the length check
+first, then the range update (the append rule), and only then - in this order - the series' own
+`push_data` and the caches; a refusal returns before anything was touched -/
+theorem push_line_tie (dir : Dir) (s : Sess) (ts : Nat) (pl : Bytes) :
+    pushLine dir s ts pl = runPushLine dir s (ByteSeries_push_line ⟨s.d.view, s.range⟩ ts pl) := by
+  unfold pushLine ByteSeries_push_line runPushLine
+  by_cases hl : pl.length ≠ s.d.p
+  · simp [hl, DataSess.view]
+  · simp only [hl, if_false, DataSess.view, time_range_update_tie]
+    cases hr : rangeUpdate s.range ts with
+    | error f =>
+      unfold rangeUpdate at hr
+      split at hr
+      · split at hr
+        · cases hr; simp
+        · cases hr
+      · cases hr
+    | ok r' =>
+      simp only [bind_ok, pure_eq_ok, List.nil_append, List.cons_append]
+      cases pushData dir.main s.d ts pl with
+      | error f => rfl
+      | ok r => rfl
+
+end BS.Gen
